@@ -346,6 +346,32 @@ func runStress(t *testing.T, sc stressCfg, seed int64, bw *bufio.Writer, limit t
 			}
 			defer inner.Close()
 			cc = inner
+			// an RPC whose metadata cannot be encoded fails alone: the carrier of a nested tunnel
+			// is a stream of the outer tunnel, whose SendMsg reports the encode error and lives
+			// on - so nothing may end the inner tunnel (C03). Checked once the workload is over.
+			defer func() {
+				bctx := metadata.AppendToOutgoingContext(context.Background(), "bad", "\xff\xfe")
+				bctx, bcancel := context.WithTimeout(bctx, 5*time.Second)
+				_, berr := inner.NewStream(bctx, shapeDesc("BD"), "/v.S/BD0")
+				bcancel()
+				time.Sleep(20 * time.Millisecond)
+				octx, ocancel := context.WithTimeout(context.Background(), 5*time.Second)
+				w.acquireR(MaxRPC - 1)
+				w.mu.Lock()
+				w.autoPlans[MaxRPC-1] = &autoPlan{shape: "U", cSends: []int{10}, respSz: 10}
+				w.mu.Unlock()
+				oerr := inner.Invoke(octx, fmt.Sprintf("/v.S/U%d", MaxRPC-1), &Msg{Value: payloadFor(MaxRPC-1, 'c', 0, 10)}, staleMsg())
+				ocancel()
+				w.releaseR(MaxRPC - 1)
+				select {
+				case <-inner.Done():
+					w.logf("harnessfail code=302 a=1 b=0")
+				default:
+					if berr == nil || oerr != nil {
+						w.logf("harnessfail code=302 a=%d b=%d", map[bool]int{true: 2, false: 0}[berr == nil], map[bool]int{true: 3, false: 0}[oerr != nil])
+					}
+				}
+			}()
 		}
 		var wg sync.WaitGroup
 		for c := 0; c < sc.callers; c++ {
@@ -484,7 +510,7 @@ func runRegistryStress(t *testing.T, name string, seed int64, bw *bufio.Writer) 
 				w.logf("PANIC stress %v", p)
 			}
 		}()
-		for round := 0; round < 16; round++ {
+		for round := 0; round < 8; round++ {
 			key := fmt.Sprintf("k%d", round)
 			n := 2 + rng.Intn(3)
 			arrived.Store(0)
@@ -561,7 +587,36 @@ func runRegistryStress(t *testing.T, name string, seed int64, bw *bufio.Writer) 
 			if len(used) != n {
 				w.logf("harnessfail code=1207 a=%d b=%d", n, len(used))
 			}
-			// close them while the queries go on
+			// the key's last tunnels go away (while the queries go on) while waiters keep asking for it, then one more tunnel
+			// with the same key comes up: every waiter must be let through (a waiter left on a set that
+			// is no longer the key's set would wait for ever although Ready() is true)
+			var waiters sync.WaitGroup
+			stopW := make(chan struct{})
+			var upAt atomic.Int64 // when the replacement tunnel was up (0: not yet)
+			var late atomic.Int32 // waiters found waiting long after that (one alone may just not have been scheduled)
+			for q := 0; q < 4; q++ {
+				waiters.Add(1)
+				go func() {
+					defer waiters.Done()
+					for {
+						select {
+						case <-stopW:
+							return
+						default:
+						}
+						wctx, wcancel := context.WithTimeout(context.Background(), 400*time.Millisecond)
+						err := kc.WaitForReady(wctx)
+						wcancel()
+						if up := upAt.Load(); err != nil && up != 0 && time.Now().UnixNano()-up > int64(300*time.Millisecond) {
+							// waited on although a tunnel with the key had been registered for 300 ms
+							late.Add(1)
+							return
+						}
+						runtime.Gosched()
+					}
+				}()
+			}
+			// (the waiters are running: now the last tunnels of the key go away ...)
 			for i := 0; i < n; i++ {
 				w.mu.Lock()
 				ts := w.tunnels[base+i]
@@ -572,6 +627,23 @@ func runRegistryStress(t *testing.T, name string, seed int64, bw *bufio.Writer) 
 					ts.ch.Close()
 				}
 			}
+			// (... and one with the same key comes up)
+			nb := len(w.tunnels)
+			w.openTunnelFree("key="+key, "p")
+			if w.waitChannel(nb, 5*time.Second) != nil {
+				upAt.Store(time.Now().UnixNano())
+				time.Sleep(450 * time.Millisecond)
+			}
+			close(stopW)
+			waiters.Wait()
+			if late.Load() >= 2 {
+				w.logf("harnessfail code=1209 a=%d b=%d", round, late.Load())
+			}
+			w.mu.Lock()
+			if nb < len(w.tunnels) {
+				w.tunnels[nb].cancel()
+			}
+			w.mu.Unlock()
 			time.Sleep(5 * time.Millisecond)
 			close(stopQ)
 			qwg.Wait()
